@@ -102,7 +102,7 @@ Apply ==
     [] ev.a = "Restart" ->
          /\ up' = TRUE /\ pc' = "idle" /\ job' = NoJob
          /\ mem' = [active |-> SeqToSet(ev.active), next |-> ev.next,
-                    cstep |-> IF IsRec(disk.restart) THEN disk.restart.cstep ELSE 0, queue |-> <<>>]
+                    cstep |-> IF IsRec(disk.restart) THEN disk.restart.cstep ELSE 0, queue |-> <<>>, kept |-> <<>>]
          /\ disk' = [disk EXCEPT !.rows = ev.rows]            \* re-synchronise on what the program saw
          /\ UNCHANGED ncrash
     [] ev.a = "Check" ->
